@@ -11,8 +11,11 @@
 (*     and vice versa (determinism of replay);                               *)
 (*   - a backward step from a clean position p lands exactly on the state    *)
 (*     recorded for p-1;                                                     *)
-(*   - a backward step after a failed attempt lands on the state recorded    *)
-(*     for p or for p-1 (interpretation 5.19).                               *)
+(*   - a backward step after a failed attempt first takes back what the      *)
+(*     failed instruction had logged: if it had logged something (the event  *)
+(*     says how many records) the step lands on the state recorded for p;    *)
+(*     if it had logged nothing it is an ordinary backward step and lands    *)
+(*     on p-1 (interpretation 5.19, read off rnext).                         *)
 (* It applies to programs over the whole dictionary.                         *)
 (***************************************************************************)
 EXTENDS Naturals, Sequences, TLC, Json, IOUtils
@@ -23,34 +26,35 @@ VARIABLES l,       \* next event
           hist,    \* states recorded per position of the current run
           p,       \* current position
           dirty,   \* the last forward step failed
-          failp    \* position at which a forward step is known to fail (0: none)
-vars == <<l, hist, p, dirty, failp>>
+          failp,   \* position at which a forward step is known to fail (0: none)
+          lg       \* reverse-log records the failed step left behind
+vars == <<l, hist, p, dirty, failp, lg>>
 
 Ev == Rec[l]
 
-Init == l = 1 /\ hist = <<>> /\ p = 0 /\ dirty = FALSE /\ failp = 0
+Init == l = 1 /\ hist = <<>> /\ p = 0 /\ dirty = FALSE /\ failp = 0 /\ lg = 0
 
 Reset == /\ Ev.ev = "reset"
-         /\ hist' = <<Ev.d>> /\ p' = 1 /\ dirty' = FALSE /\ failp' = 0
+         /\ hist' = <<Ev.d>> /\ p' = 1 /\ dirty' = FALSE /\ failp' = 0 /\ lg' = 0
 
 FwdOk == /\ Ev.ev = "step" /\ Ev.ok = 1
          /\ ~dirty /\ p >= 1 /\ failp # p
-         /\ p' = p + 1 /\ dirty' = FALSE /\ failp' = failp
+         /\ p' = p + 1 /\ dirty' = FALSE /\ failp' = failp /\ lg' = 0
          /\ IF p < Len(hist) THEN Ev.d = hist[p + 1] /\ hist' = hist          \* replay reproduces
                              ELSE hist' = Append(hist, Ev.d)
 
 FwdFail == /\ Ev.ev = "step" /\ Ev.ok = 0
            /\ ~dirty /\ p >= 1 /\ p = Len(hist)                               \* never where a step once succeeded
-           /\ p' = p /\ dirty' = TRUE /\ failp' = p /\ hist' = hist
+           /\ p' = p /\ dirty' = TRUE /\ failp' = p /\ hist' = hist /\ lg' = Ev.logged
 
 BackClean == /\ Ev.ev = "rstep" /\ ~dirty /\ p > 1
              /\ Ev.d = hist[p - 1]                                            \* k steps back = the state k steps earlier
-             /\ p' = p - 1 /\ dirty' = FALSE /\ UNCHANGED <<hist, failp>>
+             /\ p' = p - 1 /\ dirty' = FALSE /\ lg' = 0 /\ UNCHANGED <<hist, failp>>
 
 BackDirty == /\ Ev.ev = "rstep" /\ dirty /\ p >= 1
-             /\ \/ Ev.d = hist[p] /\ p' = p
-                \/ p > 1 /\ Ev.d # hist[p] /\ Ev.d = hist[p - 1] /\ p' = p - 1
-             /\ dirty' = FALSE /\ UNCHANGED <<hist, failp>>
+             /\ IF lg > 0 \/ p = 1 THEN Ev.d = hist[p] /\ p' = p
+                ELSE Ev.d = hist[p - 1] /\ p' = p - 1
+             /\ dirty' = FALSE /\ lg' = 0 /\ UNCHANGED <<hist, failp>>
 
 \* a panic is an outcome no action of the specification produces
 NoPanic == "panic" \notin DOMAIN Ev
